@@ -59,6 +59,8 @@ class HTTPClient(object):
         params['page_size'] = page_size
         params['pagination'] = True
         first_result = self._request('get', path, params=params)
+        if not first_result:
+            return results
         num_pages = first_result['page_count']
         current_page = first_result.get('page', 1)
         results.extend(first_result['items'])
@@ -66,6 +68,8 @@ class HTTPClient(object):
         while num_pages > current_page:
             params['page'] = current_page + 1
             next_result = self._request('get', path, params=params)
+            if not next_result:
+                break
             current_page = next_result['page']
             num_pages = next_result['page_count']
             items = next_result.get('items')
